@@ -230,6 +230,12 @@ def DS.fextFn (d : DS) : Nat → SV Q := match d.fext with | some f => f | none 
 def out (d : DS) (name : String) (body : String) : DS × String :=
   ({ d with callNo := d.callNo + 1 }, s!"{d.caseId}.{d.callNo} {name} {body}")
 
+/-- append a second line (spec / certificate) with the same call number -/
+def also (r : DS × String) (d0 : DS) (name : String) (body : String) : DS × String :=
+  (r.1, r.2 ++ s!"\n{d0.caseId}.{d0.callNo} {name} {body}")
+
+def implVec (d : DS) : List Q := d.impl.map (fun s => (parseRat s).getD 0)
+
 def ginit (d : DS) (t : Toks) : MatN Q × Toks :=
   let (k, t) := t.next
   if k = "z" then (fun _ _ => 0, t)
@@ -247,18 +253,35 @@ def doCall (d : DS) (t : Toks) : DS × String :=
     (d', s ++ s!"\n{d.caseId}.{d.callNo} ID.spec {showList spec}")
   | "NE" =>
     let (w, tau) := nonlinearEffects m d.w d.st d.qd (fun _ => 0) d.fext
-    out { d with w := w } name (showVec tau nd)
+    let sst : Spec.State Q := { d.specState with qdd := fun _ => 0 }
+    also (out { d with w := w } name (showVec tau nd)) d "NE.spec"
+      (showList (Spec.newtonEulerTau d.specModel sst d.fextFn))
   | "FD" =>
     let (w, qdd) := forwardDynamics m d.w d.st d.qd d.tau (fun _ => 0) d.fext
-    out { d with w := w } name (showVec qdd nd)
+    let r := out { d with w := w } name (showVec qdd nd)
+    if d.impl.isEmpty then r else
+    let sst : Spec.State Q := { d.specState with qdd := vecOfList (implVec d) }
+    also (also r d "FD.lhs" (showList (Spec.newtonEulerTau d.specModel sst d.fextFn))) d "FD.rhs" (showVec d.tau nd)
+  | "FDL" =>
+    -- Eigen solve: certificate mode only
+    let r := out d name (" ".intercalate d.impl)
+    if d.impl.isEmpty then r else
+    let sst : Spec.State Q := { d.specState with qdd := vecOfList (implVec d) }
+    also (also r d "FDL.lhs" (showList (Spec.newtonEulerTau d.specModel sst d.fextFn))) d "FDL.rhs" (showVec d.tau nd)
   | "CRBA" =>
     let (u, _) := t.nat
     let (w, H) := crba m d.w d.st (fun _ _ => 0) (u ≠ 0)
-    out { d with w := w } name (showMat H nd nd)
+    let r := out { d with w := w } name (showMat H nd nd)
+    if u ≠ 0 then also r d "CRBA.spec" (showList (Spec.inertiaMatrix d.specModel d.specState)) else r
   | "MINV" =>
     let (u, _) := t.nat
     let (w, qdd) := calcMInvTimesTau m d.w d.st d.tau (fun _ => 0) (u ≠ 0)
-    out { d with w := w } name (showVec qdd nd)
+    let r := out { d with w := w } name (showVec qdd nd)
+    if d.impl.isEmpty || u = 0 then r else
+    let Hs := Spec.inertiaMatrix d.specModel d.specState
+    let x := implVec d
+    let Hx := (List.range nd).map (fun i => (List.range nd).foldl (fun acc j => acc + Hs.getD (i * nd + j) 0 * x.getD j 0) 0)
+    also (also r d "MINV.lhs" (showList Hx)) d "MINV.rhs" (showVec d.tau nd)
   | "UK" =>
     out { d with w := updateKinematics m d.w d.st d.qd d.qdd } name ""
   | "UKC" =>
@@ -269,43 +292,96 @@ def doCall (d : DS) (t : Toks) : DS × String :=
   | "B2B" =>
     let (id, t) := t.nat; let (p, t) := t.v3; let (u, _) := t.nat
     let (w, r) := calcBodyToBaseCoordinates m d.w d.st id p (u ≠ 0)
-    out { d with w := w } name (showV3 r)
+    let o := out { d with w := w } name (showV3 r)
+    if u ≠ 0 then also o d "B2B.spec" (showV3 (Spec.bodyToBase d.specModel d.specState id p)) else o
   | "BASE2B" =>
     let (id, t) := t.nat; let (p, t) := t.v3; let (u, _) := t.nat
     let (w, r) := calcBaseToBodyCoordinates m d.w d.st id p (u ≠ 0)
-    out { d with w := w } name (showV3 r)
+    let o := out { d with w := w } name (showV3 r)
+    if u ≠ 0 then also o d "BASE2B.spec" (showV3 (Spec.baseToBody d.specModel d.specState id p)) else o
   | "ORI" =>
     let (id, t) := t.nat; let (u, _) := t.nat
     let (w, r) := calcBodyWorldOrientation m d.w d.st id (u ≠ 0)
-    out { d with w := w } name (showM3 r)
+    let o := out { d with w := w } name (showM3 r)
+    if u ≠ 0 then also o d "ORI.spec" (showM3 (Spec.orientation d.specModel d.specState id)) else o
   | "PJ" =>
-    let (id, t) := t.nat; let (p, t) := t.v3; let (u, t) := t.nat; let (G, _) := ginit d t
+    let (id, t) := t.nat; let (p, t) := t.v3; let (u, t) := t.nat; let zeroInit := t.l.headD "" = "z"
+    let (G, _) := ginit d t
     let (w, G) := calcPointJacobian m d.w d.st id p G (u ≠ 0)
-    out { d with w := w } name (showMat G 3 m.qdotSize)
+    let o := out { d with w := w } name (showMat G 3 m.qdotSize)
+    if u ≠ 0 && zeroInit then also o d "PJ.spec" (showList (Spec.pointJacobian d.specModel d.specState id p)) else o
   | "PJ6" =>
-    let (id, t) := t.nat; let (p, t) := t.v3; let (u, t) := t.nat; let (G, _) := ginit d t
+    let (id, t) := t.nat; let (p, t) := t.v3; let (u, t) := t.nat; let zeroInit := t.l.headD "" = "z"
+    let (G, _) := ginit d t
     let (w, G) := calcPointJacobian6D m d.w d.st id p G (u ≠ 0)
-    out { d with w := w } name (showMat G 6 m.qdotSize)
+    let o := out { d with w := w } name (showMat G 6 m.qdotSize)
+    if u ≠ 0 && zeroInit then also o d "PJ6.spec" (showList (Spec.pointJacobian6D d.specModel d.specState id p)) else o
   | "BSJ" =>
-    let (id, t) := t.nat; let (u, t) := t.nat; let (G, _) := ginit d t
+    let (id, t) := t.nat; let (u, t) := t.nat; let zeroInit := t.l.headD "" = "z"
+    let (G, _) := ginit d t
     let (w, G) := calcBodySpatialJacobian m d.w d.st id G (u ≠ 0)
-    out { d with w := w } name (showMat G 6 m.qdotSize)
+    let o := out { d with w := w } name (showMat G 6 m.qdotSize)
+    if u ≠ 0 && zeroInit then also o d "BSJ.spec" (showList (Spec.bodySpatialJacobian d.specModel d.specState id)) else o
   | "PV" =>
     let (id, t) := t.nat; let (p, t) := t.v3; let (u, _) := t.nat
     let (w, r) := calcPointVelocity m d.w d.st d.qd id p (u ≠ 0)
-    out { d with w := w } name (showV3 r)
+    let o := out { d with w := w } name (showV3 r)
+    if u ≠ 0 then also o d "PV.spec" (showV3 (Spec.pointVelocity d.specModel d.specState id p)) else o
   | "PV6" =>
     let (id, t) := t.nat; let (p, t) := t.v3; let (u, _) := t.nat
     let (w, r) := calcPointVelocity6D m d.w d.st d.qd id p (u ≠ 0)
-    out { d with w := w } name (showSV r)
+    let o := out { d with w := w } name (showSV r)
+    if u ≠ 0 then also o d "PV6.spec" (showSV (Spec.pointVelocity6D d.specModel d.specState id p)) else o
   | "PA" =>
     let (id, t) := t.nat; let (p, t) := t.v3; let (u, _) := t.nat
     let (w, r) := calcPointAcceleration m d.w d.st d.qd d.qdd id p (u ≠ 0)
-    out { d with w := w } name (showV3 r)
+    let o := out { d with w := w } name (showV3 r)
+    if u ≠ 0 then also o d "PA.spec" (showV3 (Spec.pointAcceleration d.specModel d.specState id p)) else o
   | "PA6" =>
     let (id, t) := t.nat; let (p, t) := t.v3; let (u, _) := t.nat
     let (w, r) := calcPointAcceleration6D m d.w d.st d.qd d.qdd id p (u ≠ 0)
-    out { d with w := w } name (showSV r)
+    let o := out { d with w := w } name (showSV r)
+    if u ≠ 0 then also o d "PA6.spec" (showSV (Spec.pointAcceleration6D d.specModel d.specState id p)) else o
+  | "COM" =>
+    let (u, _) := t.nat
+    let (w, c) := calcCenterOfMass m d.w d.st d.qd (some d.qdd) true (u ≠ 0)
+    let o := out { d with w := w } name (" ".intercalate [showRat c.mass, showV3 c.com, showV3 c.comVel,
+      showV3 c.comAcc, showV3 c.angMom, showV3 c.angMomDot])
+    if u = 0 then o else
+    let M := d.specModel; let st := d.specState
+    let L := Spec.angularMomentum M st
+    also o d "COM.spec" (" ".intercalate [showRat (Spec.totalMass M), showV3 (Spec.com M st),
+      showV3 (Spec.comVelocity M st), showV3 (Spec.comAcceleration M st), showV3 L.1, showV3 L.2])
+  | "COM0" =>
+    let (u, _) := t.nat
+    let (w, c) := calcCenterOfMass m d.w d.st d.qd none false (u ≠ 0)
+    let o := out { d with w := w } name (" ".intercalate [showRat c.mass, showV3 c.com, showV3 c.comVel, showV3 c.angMom])
+    if u = 0 then o else
+    let M := d.specModel; let st := d.specState
+    also o d "COM0.spec" (" ".intercalate [showRat (Spec.totalMass M), showV3 (Spec.com M st),
+      showV3 (Spec.comVelocity M st), showV3 (Spec.angularMomentum M st).1])
+  | "ZMP" =>
+    let (n, t) := t.v3; let (p, t) := t.v3; let (u, _) := t.nat
+    let (w, z) := calcZeroMomentPoint m d.w d.st d.qd d.qdd n p (u ≠ 0)
+    let o := out { d with w := w } name (showV3 z)
+    if u = 0 then o else
+    let M := d.specModel; let st := d.specState
+    -- net contact wrench about the base origin: momentum rate minus gravity
+    let C := Spec.com M st; let Cdd := Spec.comAcceleration M st; let mass := Spec.totalMass M
+    let LdC := (Spec.angularMomentum M st).2
+    let f : V3 Q := mass * (Cdd - M.gravity)
+    let n0 : V3 Q := LdC + C.cross f
+    also o d "ZMP.spec" (showV3 ((1 / n.dot f) * (n.cross n0 + n.dot p * f)))
+  | "KE" =>
+    let (u, _) := t.nat
+    let (w, e) := calcKineticEnergy m d.w d.st d.qd (u ≠ 0)
+    let o := out { d with w := w } name (showRat e)
+    if u ≠ 0 then also o d "KE.spec" (showRat (Spec.kineticEnergy d.specModel d.specState)) else o
+  | "PE" =>
+    let (u, _) := t.nat
+    let (w, e) := calcPotentialEnergy m d.w d.st (u ≠ 0)
+    let o := out { d with w := w } name (showRat e)
+    if u ≠ 0 then also o d "PE.spec" (showRat (Spec.potentialEnergy d.specModel d.specState)) else o
   | _ => out d name "bad-call"
 
 def afterAdd (d : DS) (r : ModelS Q × Except Err Nat) (name : String) : DS × String :=
